@@ -37,10 +37,11 @@ def mc(name, c, props=PROPS, internal=INTERNAL, view=True, constraint=True, extr
 
 S2 = '{{"t1"},{"t1","t2"}}'
 S3 = '{{"t1"},{"t2"},{"t1","t2"}}'
-# measured (16 workers, idle machine): quick 35 747 distinct / 723 028 transitions; 2 members, session 2, clock 3: 103 556 / 2 107 072 (82 s);
+# KeepT = {TRUE}: the in-memory store keeps the timeouts since the cloneConsumerGroup fix (C17); {FALSE} = the older store, kept in thorough2.
+# measured with KeepT={FALSE} (16 workers, idle machine): quick 35 747 distinct / 723 028 transitions; 2 members, session 2, clock 3: 103 556 / 2 107 072 (82 s);
 # 3 members, session 2, clock 3, gen 3, KeepT both: 5 635 138 / 214 881 644 (24 min with 8 workers on a loaded machine) - too slow for a tier
-mc("MC_Group_quick.cfg", consts(["m1", "m2"], S2, "NP21", "{FALSE}", 2, 3, sess=1, reb=1), props=["AllC"])
-mc("MC_Group_thorough.cfg", consts(["m1", "m2", "m3"], S2, "NP21", "{FALSE}", 2, 2, sess=1, reb=1), props=["AllC"], nxt="NextCore")
+mc("MC_Group_quick.cfg", consts(["m1", "m2"], S2, "NP21", "{TRUE}", 3, 3), props=["AllC"])
+mc("MC_Group_thorough.cfg", consts(["m1", "m2", "m3"], S2, "NP21", "{TRUE}", 2, 2, sess=1, reb=1), props=["AllC"], nxt="NextCore")
 mc("MC_Group_thorough2.cfg", consts(["m1", "m2"], S2, "NP21", "{TRUE,FALSE}", 3, 3), props=["AllC"])
 DEV = {"SubChange": ("FixSubChange", "C12"), "AssignAllMembers": ("DevAssignAllMembers", "C12"),
        "HbNoGen": ("DevHbNoGen", "C13"), "SyncNoGen": ("DevSyncNoGen", "C13"), "CommitNoGen": ("DevCommitNoGen", "C13"),
@@ -49,12 +50,12 @@ DEV = {"SubChange": ("FixSubChange", "C12"), "AssignAllMembers": ("DevAssignAllM
        "HbRefresh": ("FixHbRefresh", "C43"), "ExpireIgnoresHb": ("DevExpireIgnoresHb", "C43"),
        "NoLaggerDrop": ("DevNoLaggerDrop", "C43"), "NoExpire": ("DevNoExpire", "C43")}
 for n, (f, pid) in DEV.items():   # a deviation config lists only the predicates of the property it must break
-    mc("Dev_Group_%s.cfg" % n, consts(["m1", "m2"], S2, "NP21", "{FALSE}", 4, 4, flip=f), props=[p for p in PROPS if p.startswith(pid)], internal=[])
+    mc("Dev_Group_%s.cfg" % n, consts(["m1", "m2"], S2, "NP21", "{TRUE}", 4, 4, flip=f), props=[p for p in PROPS if p.startswith(pid)], internal=[])
 open(os.path.join(D, "Sim_Group.cfg"), "w").write(
-    consts(["m1", "m2", "m3"], S3, "NP32", "{FALSE}", 1000, 1000) + "INIT Init\nNEXT Next\nINVARIANTS EmitSched\nPROPERTIES " + " ".join(PROPS) + "\nCHECK_DEADLOCK FALSE\n")
+    consts(["m1", "m2", "m3"], S3, "NP32", "{TRUE}", 1000, 1000) + "INIT Init\nNEXT Next\nINVARIANTS EmitSched\nPROPERTIES " + " ".join(PROPS) + "\nCHECK_DEADLOCK FALSE\n")
 
 open(os.path.join(D, "Trace_Group.cfg"), "w").write(
     consts(["m1", "m2", "m3"], S3, "NP21", "{TRUE,FALSE}", 1000000, 1000000) + "INIT TInit\nNEXT TNext\nPOSTCONDITION Reached\nCHECK_DEADLOCK FALSE\n")
 
 open(os.path.join(D, "Sim_Group_clock.cfg"), "w").write(
-    consts(["m1", "m2", "m3"], S2, "NP32", "{FALSE}", 1000, 1000) + "INIT Init\nNEXT NextClock\nINVARIANTS EmitSched\nPROPERTIES " + " ".join(PROPS) + "\nCHECK_DEADLOCK FALSE\n")
+    consts(["m1", "m2", "m3"], S2, "NP32", "{TRUE}", 1000, 1000) + "INIT Init\nNEXT NextClock\nINVARIANTS EmitSched\nPROPERTIES " + " ".join(PROPS) + "\nCHECK_DEADLOCK FALSE\n")
